@@ -1,5 +1,5 @@
 (* C04 — Energies used for acceptance belong to the configuration they describe. *)
-From QV Require Import Model.Calc Proofs.CalcProofs.
+From QV Require Import Model.Calc Proofs.CalcProofs Model.CalcKeys Proofs.CalcKeysProofs.
 
 (* For ANY calculator (a deterministic function E of the configuration) with ASE's change detection (ceq = identical or not). *)
 
@@ -39,3 +39,33 @@ Example C04_nonvacuous :
   cfg (run nat nat S Nat.eqb [Accepted 6; Rejected 7; Failed; Edited 8; Rejected 6; Accepted 9] s0) = 9 /\
   last_e (run nat nat S Nat.eqb [Accepted 6; Rejected 7; Failed; Edited 8; Rejected 6; Accepted 9] s0) = Some 10.
 Proof. repeat split; reflexivity. Qed.
+
+(* The results as a dictionary keyed by property (energy, forces, stress, ...), for calculators that compute only what is asked for
+   (Model/CalcKeys.v).  After EVERY trial of EVERY history - whatever each trial's move and criteria asked for - the calculator is in sync
+   with the atoms and every value it holds, under any key, is that key's value for the current configuration; so is everything the
+   context saved.  KInv is the invariant of all intermediate points (any sequence of propose / request / save / revert). *)
+Theorem C04_held_results_belong_to_the_configuration : forall (C K V : Type) (E : K -> C -> V) (ceq : C -> C -> bool) (keq : K -> K -> bool) (ke : K),
+  (forall a b, ceq a b = true <-> a = b) -> (forall a b, keq a b = true <-> a = b) ->
+  forall os (s : kst C K V), KInv C K V E keq s ->
+  KInv C K V E keq (krun C K V E ceq keq ke false os s) /\
+  (os <> [] -> KCoherent C K V E ceq keq (krun C K V E ceq keq ke false os s) /\
+               forall k v, lookup K V keq k (kres (krun C K V E ceq keq ke false os s)) = Some v -> v = E k (kcfg (krun C K V E ceq keq ke false os s))).
+Proof.
+  intros C K V E ceq keq ke Hc Hk os s H. destruct (krun_inv C K V E ceq keq ke Hc Hk os s H) as [A B]. split; [exact A|].
+  intros Hn. split; [exact (B Hn)|]. intros k v. apply (coherent_held C K V E ceq keq). exact (B Hn).
+Qed.
+Print Assumptions C04_held_results_belong_to_the_configuration.
+Theorem C04_every_operation_sequence_keeps_the_invariant : forall (C K V : Type) (E : K -> C -> V) (ceq : C -> C -> bool) (keq : K -> K -> bool) (ke : K),
+  (forall a b, ceq a b = true <-> a = b) -> (forall a b, keq a b = true <-> a = b) ->
+  forall ops (s : kst C K V), KInv C K V E keq s -> KInv C K V E keq (fold_left (kstep C K V E ceq keq ke false) ops s).
+Proof. exact ksteps_inv. Qed.
+Print Assumptions C04_every_operation_sequence_keeps_the_invariant.
+(* with `calc.results.update(last_results)` instead of the replacement the statement is false: the forces asked for by a rejected trial at
+   configuration 7 are still held, in sync, for the restored configuration 0 *)
+Theorem C04_update_variant_refuted :
+  lookup nat (nat * nat) Nat.eqb 1 (kres (krun nat nat (nat * nat) tokE Nat.eqb Nat.eqb 0 true [KRejected 7 [1]] kinit)) = Some (tokE 1 7) /\
+  kcfg (krun nat nat (nat * nat) tokE Nat.eqb Nat.eqb 0 true [KRejected 7 [1]] kinit) = 0.
+Proof. exact update_variant_stale. Qed.
+Print Assumptions C04_update_variant_refuted.
+Example C04_keys_nonvacuous : KInv nat nat (nat * nat) tokE Nat.eqb kinit /\ KCoherent nat nat (nat * nat) tokE Nat.eqb Nat.eqb kinit.
+Proof. exact kinit_inv. Qed.
